@@ -69,8 +69,11 @@ def project(tree):
 C = proj.codes_of_mask
 
 
-def call_encode(tree, step, evs, M):
-    """one encode_bipartitions call -> one Encode event; returns the node order of the post-state"""
+def call_encode(tree, step, evs, M, thunk=None, route=""):
+    """one encode_bipartitions call -> one Encode event; returns the node order of the post-state.
+    With thunk: another public operation that was asked to keep the encoding current
+    (update_bipartitions=True) is called instead; the stored encoding it leaves behind is logged the
+    same way and judged on the tree as it is after the operation (g0 = g1 = post-state)."""
     g0, _, _ = project(tree)
     raised, ret = "", None
     kw = {"suppress_unifurcations": step["su"], "collapse_unrooted_basal_bifurcation": step["cb"]}
@@ -79,7 +82,10 @@ def call_encode(tree, step, evs, M):
     if step.get("mut"):
         kw["is_bipartitions_mutable"] = True
     try:
-        if step.get("via") == "update":
+        if thunk is not None:
+            thunk()
+            ret = tree.bipartition_encoding
+        elif step.get("via") == "update":
             tree.update_bipartitions(**kw)
             ret = tree.bipartition_encoding
         else:
@@ -87,7 +93,9 @@ def call_encode(tree, step, evs, M):
     except Exception as ex:
         raised = type(ex).__name__
     g1, ids, order = project(tree)
-    ev = {"action": "Encode", "g0": g0, "g1": g1, "M": M, "su": bool(step["su"]), "cb": bool(step["cb"]),
+    if thunk is not None:
+        g0 = g1
+    ev = {"action": "Encode", "route": route, "g0": g0, "g1": g1, "M": M, "su": bool(step["su"]), "cb": bool(step["cb"]),
           "stored": not step.get("ss"), "raised": raised, "ls": [], "sp": [], "tl": [], "enc": [], "encsp": [],
           "encls": [], "mapk": [], "mapn": [], "hasmap": False, "retok": False}
     if not raised:
@@ -118,6 +126,123 @@ def call_encode(tree, step, evs, M):
                     ev["raised"] = "split_bitmask_edge_map:" + type(ex).__name__
     evs.append(ev)
     return g0, g1, order
+
+
+ROUTES = ["reseed_at", "reroot_at_node", "reroot_at_edge", "to_outgroup_position", "reroot_at_midpoint",
+          "prune_subtree", "prune_taxa", "retain_taxa", "resolve_polytomies", "suppress_unifurcations",
+          "randomly_reorient", "deroot+encode", "collapse_basal_bifurcation+encode"]
+
+
+def route_thunk(tree, name, rng, ns):
+    """(thunk, su, cb) for one public operation called with update_bipartitions=True on `tree`, within
+    the operation's documented preconditions; None when the tree offers no admissible argument"""
+    _, _, order = project(tree)
+    seed = tree.seed_node
+    internal = [nd for nd in order if nd._child_nodes and nd is not seed]
+    nonseed = [nd for nd in order if nd._parent_node is not None]
+    leaves = [nd for nd in order if not nd._child_nodes and nd.taxon is not None]
+    sibs = [nd for nd in nonseed if len(nd._parent_node._child_nodes) >= 2]
+    su, cb = rng.random() < 0.8, rng.random() < 0.8
+    if name == "reseed_at":
+        nd = rng.choice(internal or [seed])
+        return (lambda: tree.reseed_at(nd, update_bipartitions=True, suppress_unifurcations=su,
+                                       collapse_unrooted_basal_bifurcation=cb)), su, cb
+    if name == "reroot_at_node":
+        nd = rng.choice(internal or [seed])
+        return (lambda: tree.reroot_at_node(nd, update_bipartitions=True, suppress_unifurcations=su,
+                                            collapse_unrooted_basal_bifurcation=cb)), su, cb
+    if name == "reroot_at_edge":
+        if not nonseed:
+            return None
+        nd = rng.choice(nonseed)
+        return (lambda: tree.reroot_at_edge(nd.edge, update_bipartitions=True, suppress_unifurcations=su)), su, True
+    if name == "to_outgroup_position":
+        if not sibs:
+            return None
+        nd = rng.choice(sibs)
+        return (lambda: tree.to_outgroup_position(nd, update_bipartitions=True, suppress_unifurcations=su)), su, True
+    if name == "reroot_at_midpoint":
+        if len(leaves) < 2:
+            return None
+        for nd in order:
+            nd.edge.length = rng.choice([1, 2, 3])
+        return (lambda: tree.reroot_at_midpoint(update_bipartitions=True, suppress_unifurcations=su,
+                                                collapse_unrooted_basal_bifurcation=cb)), su, cb
+    if name == "prune_subtree":
+        if not sibs:
+            return None
+        nd = rng.choice(sibs)
+        return (lambda: tree.prune_subtree(nd, update_bipartitions=True, suppress_unifurcations=su)), su, True
+    if name in ("prune_taxa", "retain_taxa"):
+        if len(leaves) < 3:
+            return None
+        drop = rng.sample(leaves, rng.randint(1, len(leaves) - 2))
+        gone = [nd.taxon for nd in drop]
+        kept = [nd.taxon for nd in leaves if nd not in drop]
+        if name == "prune_taxa":
+            return (lambda: tree.prune_taxa(gone, update_bipartitions=True, suppress_unifurcations=su)), su, True
+        return (lambda: tree.retain_taxa(kept, update_bipartitions=True, suppress_unifurcations=su)), su, True
+    if name == "resolve_polytomies":
+        return (lambda: tree.resolve_polytomies(update_bipartitions=True)), True, True
+    if name == "suppress_unifurcations":
+        # documented to keep an existing encoding current: the tree is encoded (unifurcations kept) first
+        tree.encode_bipartitions(suppress_unifurcations=False, collapse_unrooted_basal_bifurcation=False)
+        return (lambda: tree.suppress_unifurcations(update_bipartitions=True)), True, False
+    if name == "randomly_reorient":
+        if len(seed._child_nodes) < 2:
+            return None
+        r2 = random.Random(rng.random())
+        return (lambda: tree.randomly_reorient(rng=r2, update_bipartitions=True)), True, True
+    if name == "deroot+encode":
+        def f():
+            tree.deroot()
+            tree.encode_bipartitions(suppress_unifurcations=su, collapse_unrooted_basal_bifurcation=cb)
+        return f, su, cb
+    if name == "collapse_basal_bifurcation+encode":
+        def f2():
+            tree.collapse_basal_bifurcation(set_as_unrooted_tree=False)
+            tree.encode_bipartitions(suppress_unifurcations=su, collapse_unrooted_basal_bifurcation=cb)
+        return f2, su, cb
+    return None
+
+
+def nested_of_graph(g):
+    """the projected tree as a nested form whose taxon entries are taxon codes (purely syntactic)"""
+    def mk(x):
+        t = g["tx"][x - 1]
+        return [None, t if t else None, None, [mk(c) for c in g["kids"][x - 1]]]
+    return mk(g["seed"])
+
+
+def run_route(dendropy, case, ns, taxa, evs, rng):
+    """an encoding ROUTE: a fresh copy of the case's tree, (a stale encoding left on it)?, one public
+    operation with update_bipartitions=True, then the stored per-edge masks / encoding list are logged
+    without any further encode call, and compared with a directly encoded redrawn copy of the result"""
+    name = case["route"]
+    M = members(ns)
+    tree = build.build_tree(dendropy, case["nested"], ns, taxa, rooted=rooted_value(case["rooted"]))
+    if case.get("route_stale"):
+        tree.encode_bipartitions(suppress_unifurcations=False, collapse_unrooted_basal_bifurcation=False)
+    rt = route_thunk(tree, name, rng, ns)
+    if rt is None:
+        return
+    thunk, su, cb = rt
+    if case.get("route_stale") and tree.bipartition_encoding:
+        tree.split_bitmask_edge_map         # the cached maps exist before the operation
+    _, g1, _ = call_encode(tree, {"su": su, "cb": cb}, evs, M, thunk=thunk, route=name)
+    ev = evs[-1]
+    if ev["raised"] or not isinstance(tree.bipartition_encoding, list):
+        return
+    by_code = dict((int(ns.accession_index(t)) + 1, t) for t in ns)
+    mate_nested = x_c01.shuffle_children(nested_of_graph(g1), rng)
+    if any(not k and not t for k, t in zip(g1["kids"], g1["tx"])):
+        return      # the operation left a leaf without taxon: outside the pair clause's domain
+    mate = build.build_tree(dendropy, mate_nested, ns, by_code, rooted=rooted_value(g1["rooted"]))
+    gb0, _, _ = call_encode(mate, {"su": True, "cb": True}, evs, M)
+    if evs[-1]["raised"]:
+        return
+    evs.append({"action": "Pair", "ga": g1, "gb": gb0, "ssa": [C(b.split_bitmask) for b in tree.bipartition_encoding],
+                "ssb": [C(b.split_bitmask) for b in mate.bipartition_encoding]})
 
 
 def mutate(tree, kind, rng):
@@ -250,6 +375,8 @@ def run_case(case):
                 ev[k2] = []
             ev["compat"], ev["nested"] = [], []
         evs.append(ev)
+    if case.get("route"):
+        run_route(dendropy, case, ns, taxa, evs, rng)
     evs.append(namespace_event(ns))
     return evs
 
@@ -320,6 +447,7 @@ def model_cases(ctx, states, sample=None):
                     "log_mate": False, "mate": mate["nested"] if mate else None,
                     "edit_before_default": [None, None, "swap_taxa", "move_leaf"][(k // 5) % 4],
                     "pre_taxa": pre_taxa(len(r["M"]), k, rng),
+                    "route": ROUTES[(k // 3) % len(ROUTES)] if k % 3 == 0 else None, "route_stale": (k // 3) % 2 == 0,
                     "mate_step": {"op": "encode", "su": COMBOS[(k // 2) % 4][0], "cb": COMBOS[(k // 2) % 4][1]}}
             cases.append(case)
     return cases
@@ -364,6 +492,7 @@ def random_cases(ctx, n):
                       "reencode_rebuilt": k % 3 == 0, "mate": mate,
                       "edit_before_default": rng.choice([None, None, "swap_taxa", "move_leaf"]),
                       "pre_taxa": pre_taxa(len(M), rng.randrange(4), rng),
+                      "route": ROUTES[k % len(ROUTES)], "route_stale": rng.random() < 0.5,
                       "mate_step": {"op": "encode", "su": rng.random() < 0.7, "cb": rng.random() < 0.7}})
     return cases
 
@@ -376,7 +505,10 @@ def account(ctx, driven):
             if a == "Encode":
                 g0, g1 = e["g0"], e["g1"]
                 if sum(1 for t, k in zip(g0["tx"], g0["kids"]) if not k) >= 3:
-                    ctx.add_nontrivial(["Encode", g0["par"], g0["tx"], g0["rooted"], e["su"], e["cb"]])
+                    ctx.add_nontrivial(["Encode", e["route"], g0["par"], g0["tx"], g0["rooted"], e["su"], e["cb"]])
+                if e["route"]:
+                    rk = "route:" + e["route"] + (":raised:" + e["raised"] if e["raised"] else "")
+                    ctx.extra.setdefault("routes", {})[rk] = ctx.extra.setdefault("routes", {}).get(rk, 0) + 1
                 # structure the call leaves behind although the option asked for its removal (the property is
                 # about the masks; counted, never failing)
                 if g1["n"] and not e["raised"]:
